@@ -17,6 +17,27 @@ ASSUMPTIONS = [
 def gen_base(seed, i):
     rng = Rng(seed * 15485867 + i)
     kind = rng.below(3)
+    if i % 6 == 5:
+        # a catch takes an error, the process is reloaded while the handler waits, the handler fails (or ends): the once-only marks of catches
+        # and everything else a revived task carries have to come back from the store
+        g = gen.WfGen(rng.fork("wf"), depth=1, max_steps=2, max_branches=2, max_acts=2, p_if=0, needs=False, act_kinds=((gen.IRQ, 8), (gen.MSG, 1)), catches=True)
+        w = g.workflow("m1")
+        first = w["steps"][0]
+        first.pop("branches", None)
+        first["acts"] = [{"id": "ax", "uses": gen.IRQ, "key": "kax", "catches": [{"on": "e1", "steps": [{"id": "sx", "acts": [{"id": "cx", "uses": gen.IRQ, "key": "kcx"}]}]}]}]
+        if rng.chance(1, 2):
+            first["catches"] = [{"steps": [{"id": "sy", "acts": [{"id": "cy", "uses": gen.IRQ, "key": "kcy"}]}]}]
+        ops = [["deploy", 0], ["start", "m1", {"pid": "p1", "x": rng.below(4), "y": rng.below(4)}], ["runall"]]
+        for _ in range(rng.range(5, 9)):
+            if rng.chance(1, 2):
+                ops.append(["act", "error", "p1", {"open": rng.below(2)}, {"ecode": rng.pick(["e1", "e1", "e2"]), "message": "boom"}])
+            else:
+                ops.append(["act", "next", "p1", {"open": rng.below(2)}, {"n1": rng.below(90)}])
+            ops.append(["runall"])
+        for _ in range(4):
+            ops.append(["act", "next", "p1", {"open": 0}, {}])
+            ops.append(["runall"])
+        return w, g.exprs, ops, rng
     if i % 20 == 7:
         # long processes: more task rows than one default page of a store query
         n = rng.range(26, 40)
@@ -115,6 +136,8 @@ def run(ctx):
         cuts = set(rng.shuffle(quiescent)[:ncut])
         if len(ops) > 40:
             cuts.add(quiescent[len(quiescent) - 1 - rng.below(5)])
+        if i % 6 == 5:
+            cuts = set(quiescent)      # the catch family is reloaded at every quiescent point
         cfg = {"keep": True, "store": store, "dump_each": True}
         a = {"id": f"c12-{i}-A", "config": cfg, "models": [w], "ops": ops, "exprs": exprs}
         bops, idx = with_cuts(ops, cuts, store)
